@@ -4,6 +4,8 @@ import (
 	"fmt"
 	"reflect"
 	"strings"
+
+	stackage "github.com/JesseCoretta/go-stackage"
 )
 
 // C17 — uninitialised and freed instances are inert, not dangerous.
@@ -208,6 +210,17 @@ func (c17) AfterOp(x *Exec, task, idx int, op Op, out Outcome) {
 				alive = !o.S.IsZero() || o.S.IsInit()
 			} else {
 				alive = !o.C.IsZero() || o.C.IsInit()
+			}
+			if op.M == "Init" && o.T == 'C' && !o.C.IsZero() {
+				// a pristine instance: nothing of an earlier life
+				var pristine stackage.Condition
+				pristine.Init()
+				fresh := w.renderState(stackage.VerifDump(pristine), 0)
+				got := w.renderState(stackage.VerifDump(*o.C), 0)
+				if normStamp(got) != normStamp(fresh) {
+					x.fail("init-not-pristine:Init", fmt.Sprintf("Init() on a dead Condition produced an instance that is not pristine:\n got:      %s\n pristine: %s", got, fresh))
+				}
+				return
 			}
 			if op.M == "Marshal" || op.M == "Init" {
 				return // their purpose is to initialise
